@@ -127,6 +127,37 @@ def main():
                 rep = {"ok": True, "value": repr(sorted(names[req["src"]].to_dok().items())[:3])}
             elif cmd == "pickle":
                 names[req["dst"]] = pickle.loads(pickle.dumps(names[req["src"]]))
+            elif cmd == "iter":
+                # an items() iterator that has been started: whoever holds it is reading the tensor
+                it = names[req["src"]].items()
+                sentinel = object()
+                first = next(it, sentinel)
+                names[req["dst"]] = it
+                # a generator that has finished holds nothing any more
+                rep = {"ok": True, "first": repr(first) if first is not sentinel else None, "exhausted": first is sentinel}
+                del it
+            elif cmd == "drain":
+                rest = list(names[req["name"]])
+                del names[req["name"]]
+                rep = {"ok": True, "n": len(rest), "rest": repr(rest[:4])}
+            elif cmd == "fail_eval":
+                # a call that is refused, with a kernel result among its arguments; the caller catches the error
+                x = names[req["src"]]
+                v = req["variant"] % 4
+                raised = None
+                try:
+                    if v == 0:
+                        evaluate("y(i,j) = x(i,j) * A(i,j)", "sparse", A=A, x=x)
+                    elif v == 1:
+                        evaluate("y(i,j) = x(i,j) * A(i,j)", "d1s1", A=A, x=x)
+                    elif v == 2:
+                        evaluate("y(i,j) = x(i,j) * A(i,j)", "ds", A=A, w=x)
+                    else:
+                        evaluate("y(i,j,k) = x(i,j,k) * A(i,j)", "dds", A=A, x=x)
+                except Exception as e:  # noqa: BLE001
+                    raised = type(e).__name__
+                del x
+                rep = {"ok": True, "raised_and_caught": raised}
             elif cmd == "del":
                 del names[req["name"]]
             elif cmd == "gc":
@@ -145,7 +176,7 @@ def main():
         except Exception as e:  # noqa: BLE001
             import traceback
 
-            if cmd in ("eval", "read", "pickle", "alias", "cffi", "del", "gc"):
+            if cmd in ("eval", "read", "pickle", "alias", "cffi", "del", "gc", "iter", "drain", "fail_eval"):
                 # on a correct tree none of these operations raises: report it as an observation
                 rep = {"raised": f"{type(e).__name__}: {e}"[:300], "trace": traceback.format_exc()[-600:]}
             else:
